@@ -538,4 +538,348 @@ theorem rt_cf (C : Ctx) (f : CF) (n : Nat) (hn : 7 ≤ n) (rest : Bytes) (hsmall
   · rw [sizedPayload_enc _ _ _ (by omega) htmp]
     simp only [res_bind, hloop, ok_bind, res_pure]
 
+/-! ### lengths -/
+
+mutual
+theorem encodeObject_length_pos (C : Ctx) : ∀ o : Obj, 1 ≤ (encodeObject C o).length
+  | .array xs => by simp [encodeObject]; split <;> simp
+  | .nil => by simp [encodeObject]
+  | .map kvs => by simp [encodeObject]
+  | .undefined => by simp [encodeObject]
+  | .bool true => by simp [encodeObject]
+  | .bool false => by simp [encodeObject]
+  | .int v => by simp [encodeObject, encodeInt]; split <;> simp
+  | .uint v => by simp [encodeObject, encodeUint]; split <;> simp
+  | .char v => by simp [encodeObject, encodeChar]; split <;> simp
+  | .float v => by simp [encodeObject, encodeFloat]; split <;> simp
+  | .str v => by simp [encodeObject, encodeSized]; split <;> simp
+  | .bytes v => by simp [encodeObject, encodeSized]; split <;> simp
+  | .syncMap true _ => by simp [encodeObject]
+  | .syncMap false _ => by simp [encodeObject]
+  | .compiledFunction f => by simp [encodeObject, encodeCF]
+  | .function f => by simp [encodeObject, encodeFuncName]
+  | .builtinFunction f => by simp [encodeObject, encodeFuncName]
+  | .gob _ _ => by simp [encodeObject]
+theorem encodeList_length (C : Ctx) : ∀ xs : List Obj, xs.length ≤ (encodeList C xs).length
+  | [] => by simp
+  | x :: xs => by
+    have h1 := encodeObject_length_pos C x
+    have h2 := encodeList_length C xs
+    simp [encodeList]; omega
+end
+
+theorem encodeInt_cons (v : BitVec 64) : encodeInt v = binIntV1 :: (encodeInt v).tail := by
+  unfold encodeInt; split <;> rfl
+theorem encodeUint_cons (v : BitVec 64) : encodeUint v = binUintV1 :: (encodeUint v).tail := by
+  unfold encodeUint; split <;> rfl
+theorem encodeFloat_cons (v : F64) : encodeFloat v = binFloatV1 :: (encodeFloat v).tail := by
+  unfold encodeFloat; split <;> rfl
+theorem encodeChar_cons (v : BitVec 32) : encodeChar v = binCharV1 :: (encodeChar v).tail := by
+  unfold encodeChar; split <;> rfl
+
+/-- `String` objects round-trip -/
+theorem rt_str (C : Ctx) (n : Nat) (s rest : Bytes) (hp : s.length < 2 ^ 63) :
+    (decodeObjectF C (n + 1) (encodeSized binStringV1 s ++ rest)).res = .ok (.str s, rest) := by
+  have hu := unmarshalString_enc s hp
+  unfold encodeSized at hu ⊢
+  by_cases h0 : s.length = 0
+  · have : s = [] := List.eq_nil_of_length_eq_zero h0
+    subst this
+    rw [if_pos h0] at hu ⊢
+    simp only [List.cons_append, List.nil_append]
+    rw [dispatch_sized C n _ _ (by simp), decodeSized_zero]
+    unfold decodeSizedBuf
+    simp only [binStringV1, binBytesV1, binCompiledFunctionV1, binArrayV1] at hu ⊢
+    simp [hu]
+  · rw [if_neg h0] at hu ⊢
+    simp only [List.cons_append]
+    rw [dispatch_sized C n _ _ (by simp), decodeSized_enc _ _ _ _ _ _ _ hp]
+    unfold decodeSizedBuf
+    simp only [binStringV1, binBytesV1, binCompiledFunctionV1, binArrayV1, List.cons_append] at hu ⊢
+    simp [hu]
+
+theorem encodeFuncName_small (tag : UInt8) (name : Bytes) (h : (encodeFuncName tag name).length < 2 ^ 63) :
+    (encodeSized binStringV1 name).length < 2 ^ 63 := by
+  unfold encodeFuncName at h
+  simp only [List.length_cons, List.length_append] at h
+  omega
+
+theorem rt_function (C : Ctx) (n : Nat) (name rest : Bytes)
+    (hsmall : (encodeFuncName binFunctionV1 name).length < 2 ^ 63) :
+    (decodeObjectF C (n + 1) (encodeFuncName binFunctionV1 name ++ rest)).res = .ok (.function name, rest) := by
+  have hs := encodeFuncName_small _ _ hsmall
+  have hu := unmarshalFuncName_enc binFunctionV1 "ugo.Function" name hs
+  unfold encodeFuncName at hu ⊢
+  simp only [List.cons_append] at hu ⊢
+  rw [dispatch_sized C n _ _ (by simp), decodeSized_enc _ _ _ _ _ _ _ hs]
+  unfold decodeSizedBuf
+  simp only [binFunctionV1, binStringV1, binBytesV1, binCompiledFunctionV1, binArrayV1, binMapV1, binSyncMapV1,
+    List.cons_append] at hu ⊢
+  simp [hu]
+
+theorem rt_builtin (C : Ctx) (n : Nat) (name rest : Bytes) (hb : C.isBuiltinFn name = true)
+    (hsmall : (encodeFuncName binBuiltinFunctionV1 name).length < 2 ^ 63) :
+    (decodeObjectF C (n + 1) (encodeFuncName binBuiltinFunctionV1 name ++ rest)).res =
+      .ok (.builtinFunction name, rest) := by
+  have hs := encodeFuncName_small _ _ hsmall
+  have hu := unmarshalFuncName_enc binBuiltinFunctionV1 "ugo.BuiltinFunction" name hs
+  unfold encodeFuncName at hu ⊢
+  simp only [List.cons_append] at hu ⊢
+  rw [dispatch_sized C n _ _ (by simp), decodeSized_enc _ _ _ _ _ _ _ hs]
+  unfold decodeSizedBuf
+  simp only [binBuiltinFunctionV1, binFunctionV1, binStringV1, binBytesV1, binCompiledFunctionV1, binArrayV1,
+    binMapV1, binSyncMapV1, List.cons_append] at hu ⊢
+  simp [hu, hb]
+
+/-! ### containers, given the loops -/
+
+theorem unmarshalArray_enc (C : Ctx) (loop : Bytes → DM (List Obj)) (xs : List Obj) (r : List Obj)
+    (_hne : xs.length ≠ 0)
+    (hsmall : (toBytes xs.length ++ encodeList C xs).length < 2 ^ 63)
+    (hloop : (loop (encodeList C xs)).res = .ok r) :
+    (unmarshalArray loop (binArrayV1 :: toBytes (toBytes xs.length ++ encodeList C xs).length ++
+      (toBytes xs.length ++ encodeList C xs))).res = .ok r := by
+  have hlen := encodeList_length C xs
+  have hxs : xs.length < 2 ^ 63 := by simp only [List.length_append] at hsmall; omega
+  have hin := inInt64_ofNat _ hxs
+  obtain ⟨hl2, _⟩ := toBytes_length _ hin
+  unfold unmarshalArray
+  rw [sizedPayload_enc _ _ _ (by simp only [List.length_append]; omega) hsmall]
+  simp only [res_bind, res_liftM, viRead_toBytes _ _ hin, ok_bind]
+  rw [res_ite, if_neg (by omega)]
+  simp only [res_bind, res_tick, ok_bind, hloop]
+
+theorem unmarshalMap_enc (C : Ctx) (loop : Bytes → DM (List (Bytes × Obj))) (kvs : List (Bytes × Obj))
+    (r : List (Bytes × Obj))
+    (hsmall : (encodeKVs C kvs).length < 2 ^ 63)
+    (hloop : (loop (encodeKVs C kvs)).res = .ok r)
+    (hnil : (encodeKVs C kvs).length = 0 → r = []) :
+    (unmarshalMap loop (binMapV1 :: toBytes (encodeKVs C kvs).length ++ encodeKVs C kvs)).res =
+      .ok (mapOfList r) := by
+  unfold unmarshalMap
+  by_cases h0 : (encodeKVs C kvs).length = 0
+  · have hn : encodeKVs C kvs = [] := List.eq_nil_of_length_eq_zero h0
+    rw [hnil h0, hn]
+    simp only [List.length_nil, Int.natCast_zero]
+    rw [sizedPayload_toBytes0]
+    simp [mapOfList]
+  · rw [sizedPayload_enc _ _ _ (by omega) hsmall]
+    simp only [res_bind, hloop, ok_bind, res_pure]
+
+theorem toBytes_head_ne_zero (v : Int) (h : inInt64 v = true) : ∃ a b, toBytes v = a :: b ∧ a ≠ 0 := by
+  obtain ⟨h1, h10⟩ := putVarint_len v h
+  exact ⟨_, _, rfl, lenByte_ne_zero _ h1 h10⟩
+
+theorem decodeSizedBuf_array (C : Ctx) (cfL arrL mapL) (rb p : Bytes) :
+    (decodeSizedBuf C cfL arrL mapL binArrayV1 rb p).res =
+      (unmarshalArray arrL (binArrayV1 :: rb ++ p)).res >>= fun xs => .ok (.array xs) := by
+  unfold decodeSizedBuf
+  simp [binArrayV1, binCompiledFunctionV1]
+
+theorem decodeSizedBuf_map (C : Ctx) (cfL arrL mapL) (rb p : Bytes) :
+    (decodeSizedBuf C cfL arrL mapL binMapV1 rb p).res =
+      (unmarshalMap mapL (binMapV1 :: rb ++ p)).res >>= fun m => .ok (.map m) := by
+  unfold decodeSizedBuf
+  simp [binMapV1, binStringV1, binBytesV1, binArrayV1, binCompiledFunctionV1]
+
+theorem decodeSizedBuf_syncMap (C : Ctx) (cfL arrL mapL) (a : UInt8) (b p : Bytes) (ha : a ≠ 0) :
+    (decodeSizedBuf C cfL arrL mapL binSyncMapV1 (a :: b) p).res =
+      (unmarshalMap mapL (binMapV1 :: (a :: b) ++ p)).res >>= fun m => .ok (.syncMap false m) := by
+  unfold decodeSizedBuf
+  simp [binSyncMapV1, binMapV1, binStringV1, binBytesV1, binArrayV1, binCompiledFunctionV1, ha]
+
+/-! ### the round trip of objects -/
+
+theorem encodeKVs_nil_of_length (C : Ctx) (kvs : List (Bytes × Obj)) (h : (encodeKVs C kvs).length = 0) : kvs = [] := by
+  cases kvs with
+  | nil => rfl
+  | cons kv rest =>
+    obtain ⟨k, v⟩ := kv
+    have := encodeObject_length_pos C v
+    simp only [encodeKVs, List.length_append] at h
+    omega
+
+mutual
+theorem rt_obj (C : Ctx) : ∀ (o : Obj) (fuel : Nat) (rest : Bytes), Encodable C o → need o ≤ fuel →
+    (encodeObject C o).length < 2 ^ 63 →
+    (decodeObjectF C fuel (encodeObject C o ++ rest)).res = .ok (norm o, rest)
+  | .nil, _, _, hE, _, _ => by simp [Encodable] at hE
+  | .undefined, fuel, rest, _, hf, _ => by
+    obtain ⟨n, rfl⟩ := succ_of_pos (show 1 ≤ fuel by simp [need] at hf; omega)
+    simp [encodeObject, decodeObjectF, readByte, norm]
+  | .bool true, fuel, rest, _, hf, _ => by
+    obtain ⟨n, rfl⟩ := succ_of_pos (show 1 ≤ fuel by simp [need] at hf; omega)
+    simp [encodeObject, decodeObjectF, readByte, norm, binTrueV1, binUndefinedV1]
+  | .bool false, fuel, rest, _, hf, _ => by
+    obtain ⟨n, rfl⟩ := succ_of_pos (show 1 ≤ fuel by simp [need] at hf; omega)
+    simp [encodeObject, decodeObjectF, readByte, norm, binTrueV1, binUndefinedV1, binFalseV1]
+  | .int v, fuel, rest, _, hf, _ => by
+    obtain ⟨n, rfl⟩ := succ_of_pos (show 1 ≤ fuel by simp [need] at hf; omega)
+    simp only [encodeObject, norm]
+    rw [encodeInt_cons, List.cons_append, dispatch_num C n _ _ (by simp), decodeNum_int]
+  | .uint v, fuel, rest, _, hf, _ => by
+    obtain ⟨n, rfl⟩ := succ_of_pos (show 1 ≤ fuel by simp [need] at hf; omega)
+    simp only [encodeObject, norm]
+    rw [encodeUint_cons, List.cons_append, dispatch_num C n _ _ (by simp), decodeNum_uint]
+  | .float v, fuel, rest, _, hf, _ => by
+    obtain ⟨n, rfl⟩ := succ_of_pos (show 1 ≤ fuel by simp [need] at hf; omega)
+    simp only [encodeObject, norm]
+    rw [encodeFloat_cons, List.cons_append, dispatch_num C n _ _ (by simp), decodeNum_float]
+  | .char v, fuel, rest, _, hf, _ => by
+    obtain ⟨n, rfl⟩ := succ_of_pos (show 1 ≤ fuel by simp [need] at hf; omega)
+    simp only [encodeObject, norm]
+    rw [encodeChar_cons, List.cons_append, dispatch_num C n _ _ (by simp), decodeNum_char]
+  | .str s, fuel, rest, _, hf, hs => by
+    obtain ⟨n, rfl⟩ := succ_of_pos (show 1 ≤ fuel by simp [need] at hf; omega)
+    simp only [encodeObject, norm] at hs ⊢
+    have := (encodeSized_length binStringV1 s)
+    have hlen : s.length < 2 ^ 63 := by
+      have : s.length ≤ (encodeSized binStringV1 s).length := by unfold encodeSized; split <;> simp <;> omega
+      omega
+    exact rt_str C n s rest hlen
+  | .bytes s, fuel, rest, _, hf, hs => by
+    obtain ⟨n, rfl⟩ := succ_of_pos (show 1 ≤ fuel by simp [need] at hf; omega)
+    simp only [encodeObject, norm] at hs ⊢
+    have hlen : s.length < 2 ^ 63 := by
+      have : s.length ≤ (encodeSized binBytesV1 s).length := by unfold encodeSized; split <;> simp <;> omega
+      omega
+    exact rt_bytes C n s rest hlen
+  | .function name, fuel, rest, _, hf, hs => by
+    obtain ⟨n, rfl⟩ := succ_of_pos (show 1 ≤ fuel by simp [need] at hf; omega)
+    simp only [encodeObject, norm] at hs ⊢
+    exact rt_function C n name rest hs
+  | .builtinFunction name, fuel, rest, hE, hf, hs => by
+    obtain ⟨n, rfl⟩ := succ_of_pos (show 1 ≤ fuel by simp [need] at hf; omega)
+    simp only [encodeObject, norm, Encodable] at hs hE ⊢
+    exact rt_builtin C n name rest hE hs
+  | .gob tn id, fuel, rest, hE, hf, _ => by
+    obtain ⟨n, rfl⟩ := succ_of_pos (show 1 ≤ fuel by simp [need] at hf; omega)
+    simp only [encodeObject, norm, Encodable] at hE ⊢
+    rw [List.cons_append, dispatch_gob]
+    unfold decodeGob
+    rw [hE rest]
+  | .compiledFunction f, fuel, rest, _, hf, hs => by
+    simp only [need] at hf
+    obtain ⟨n, rfl⟩ := succ_of_pos (show 1 ≤ fuel by omega)
+    simp only [encodeObject, norm] at hs ⊢
+    exact rt_cf C f n (by omega) rest hs
+  | .array xs, fuel, rest, hE, hf, hs => by
+    simp only [need] at hf
+    obtain ⟨n, rfl⟩ := succ_of_pos (show 1 ≤ fuel by omega)
+    simp only [encodeObject, norm, Encodable] at hs hE ⊢
+    by_cases h0 : xs.length = 0
+    · have : xs = [] := List.eq_nil_of_length_eq_zero h0
+      subst this
+      rw [if_pos h0]
+      simp only [List.cons_append, List.nil_append]
+      rw [dispatch_sized C n _ _ (by simp), decodeSized_zero]
+      unfold decodeSizedBuf unmarshalArray
+      simp only [binArrayV1, binCompiledFunctionV1]
+      have := sizedPayload_zero 9 "ugo.Array"
+      simp [this, normList]
+    · rw [if_neg h0] at hs ⊢
+      have htmp : (toBytes xs.length ++ encodeList C xs).length < 2 ^ 63 := by
+        simp only [List.length_cons, List.length_append] at hs ⊢; omega
+      have hl : (encodeList C xs).length < 2 ^ 63 := by
+        simp only [List.length_append] at htmp; omega
+      have hloop := rt_list C xs n hE (by omega) hl
+      have hu := unmarshalArray_enc C (arrayLoopF C n) xs _ h0 htmp hloop
+      simp only [List.cons_append]
+      rw [dispatch_sized C n _ _ (by simp), decodeSized_enc _ _ _ _ _ _ _ htmp, decodeSizedBuf_array, hu]
+      rfl
+  | .map kvs, fuel, rest, hE, hf, hs => by
+    simp only [need] at hf
+    obtain ⟨n, rfl⟩ := succ_of_pos (show 1 ≤ fuel by omega)
+    simp only [encodeObject, norm, Encodable] at hs hE ⊢
+    have htmp : (encodeKVs C kvs).length < 2 ^ 63 := by
+      simp only [List.length_cons, List.length_append] at hs; omega
+    have hloop := rt_kvs C kvs n hE (by omega) htmp
+    have hu := unmarshalMap_enc C (mapLoopF C n) kvs _ htmp hloop
+      (fun h => by rw [encodeKVs_nil_of_length C kvs h]; rfl)
+    simp only [List.cons_append]
+    rw [dispatch_sized C n _ _ (by simp), decodeSized_enc _ _ _ _ _ _ _ htmp, decodeSizedBuf_map, hu]
+    rfl
+  | .syncMap true kvs, fuel, rest, _, hf, _ => by
+    simp only [need] at hf
+    obtain ⟨n, rfl⟩ := succ_of_pos (show 1 ≤ fuel by omega)
+    simp only [encodeObject, norm]
+    simp only [List.cons_append, List.nil_append]
+    rw [dispatch_sized C n _ _ (by simp), decodeSized_zero]
+    unfold decodeSizedBuf
+    simp [binSyncMapV1, binMapV1, binStringV1, binBytesV1, binArrayV1, binCompiledFunctionV1]
+  | .syncMap false kvs, fuel, rest, hE, hf, hs => by
+    simp only [need] at hf
+    obtain ⟨n, rfl⟩ := succ_of_pos (show 1 ≤ fuel by omega)
+    simp only [encodeObject, norm, Encodable] at hs hE ⊢
+    have htmp : (encodeKVs C kvs).length < 2 ^ 63 := by
+      simp only [List.length_cons, List.length_append] at hs; omega
+    have hloop := rt_kvs C kvs n hE (by omega) htmp
+    have hu := unmarshalMap_enc C (mapLoopF C n) kvs _ htmp hloop
+      (fun h => by rw [encodeKVs_nil_of_length C kvs h]; rfl)
+    obtain ⟨a, b, hab, hane⟩ := toBytes_head_ne_zero ((encodeKVs C kvs).length : Int) (inInt64_ofNat _ htmp)
+    simp only [List.cons_append]
+    rw [dispatch_sized C n _ _ (by simp), decodeSized_enc _ _ _ _ _ _ _ htmp]
+    rw [hab] at hu ⊢
+    rw [decodeSizedBuf_syncMap _ _ _ _ _ _ _ hane, hu]
+    rfl
+theorem rt_list (C : Ctx) : ∀ (xs : List Obj) (fuel : Nat), EncodableL C xs → needL xs + 1 ≤ fuel →
+    (encodeList C xs).length < 2 ^ 63 →
+    (arrayLoopF C fuel (encodeList C xs)).res = .ok (normList xs)
+  | [], fuel, _, hf, _ => by
+    obtain ⟨n, rfl⟩ := succ_of_pos (show 1 ≤ fuel by omega)
+    simp [encodeList, arrayLoopF, normList]
+  | x :: xs, fuel, hE, hf, hs => by
+    simp only [needL] at hf
+    obtain ⟨n, rfl⟩ := succ_of_pos (show 1 ≤ fuel by omega)
+    simp only [encodeList, EncodableL, List.length_append] at hs hE ⊢
+    have hpos := encodeObject_length_pos C x
+    rw [arrayLoopF]
+    have hne : (encodeObject C x ++ encodeList C xs).isEmpty = false := by
+      cases h : encodeObject C x with
+      | nil => rw [h] at hpos; simp at hpos
+      | cons a b => rfl
+    rw [hne]
+    simp only [Bool.false_eq_true, if_false, res_bind]
+    rw [rt_obj C x n (encodeList C xs) hE.1 (by omega) (by omega)]
+    simp only [ok_bind, res_bind]
+    rw [rt_list C xs n hE.2 (by omega) (by omega)]
+    simp [normList]
+theorem rt_kvs (C : Ctx) : ∀ (kvs : List (Bytes × Obj)) (fuel : Nat), EncodableKV C kvs → needKV kvs + 1 ≤ fuel →
+    (encodeKVs C kvs).length < 2 ^ 63 →
+    (mapLoopF C fuel (encodeKVs C kvs)).res = .ok (normKVs kvs)
+  | [], fuel, _, hf, _ => by
+    obtain ⟨n, rfl⟩ := succ_of_pos (show 1 ≤ fuel by omega)
+    simp [encodeKVs, mapLoopF, normKVs]
+  | (k, v) :: kvs, fuel, hE, hf, hs => by
+    simp only [needKV] at hf
+    obtain ⟨n, rfl⟩ := succ_of_pos (show 1 ≤ fuel by omega)
+    simp only [encodeKVs, EncodableKV, List.length_append] at hs hE ⊢
+    have hk : k.length < 2 ^ 63 := by omega
+    have hin := inInt64_ofNat _ hk
+    obtain ⟨hl2, _⟩ := toBytes_length _ hin
+    rw [mapLoopF]
+    have hne : (toBytes ↑k.length ++ k ++ encodeObject C v ++ encodeKVs C kvs).isEmpty = false := by
+      cases h : toBytes (k.length : Int) with
+      | nil => rw [h] at hl2; simp at hl2
+      | cons a b => rfl
+    rw [hne]
+    simp only [Bool.false_eq_true, if_false, res_bind, res_liftM, List.append_assoc,
+      viRead_toBytes _ _ hin, ok_bind, res_tick]
+    have hrf : (if (k.length : Int) > 0 then readFull (k.length : Int).toNat (k ++ (encodeObject C v ++ encodeKVs C kvs))
+        else Res.ok ([], k ++ (encodeObject C v ++ encodeKVs C kvs))) =
+        Res.ok (k, encodeObject C v ++ encodeKVs C kvs) := by
+      by_cases h0 : k.length = 0
+      · have : k = [] := List.eq_nil_of_length_eq_zero h0
+        subst this; simp
+      · rw [if_pos (by omega)]
+        have : ((k.length : Int)).toNat = k.length := by omega
+        rw [this, readFull_append]
+    rw [hrf]
+    simp only [ok_bind]
+    rw [rt_obj C v n (encodeKVs C kvs) hE.1 (by omega) (by omega)]
+    simp only [ok_bind, res_bind]
+    rw [rt_kvs C kvs n hE.2 (by omega) (by omega)]
+    simp [normKVs]
+end
+
 end UgoVerif.Proofs.Enc
